@@ -4,6 +4,7 @@ pub mod evrec;
 pub mod exec;
 pub mod oracles_run;
 pub mod oracles_stream;
+pub mod oracles_trace;
 pub mod pipelines;
 pub mod pure;
 pub mod recw;
